@@ -151,6 +151,15 @@ class _Patches:
             return f
         for n in PRIV:
             self._set(os, n, rec(n))
+        # every other way of changing ids is recorded too (never executed: the harness runs as root): calls that change all
+        # three ids of a kind count as the switch itself, calls that change only the effective id are a finding
+        r_uid, r_gid = rec("setreuid"), rec("setregid")
+        self._set(os, "setuid", lambda u: r_uid(u, u))
+        self._set(os, "setgid", lambda g: r_gid(g, g))
+        self._set(os, "setresuid", lambda r, e, s_: r_uid(r, e) if r == e == s_ else rec("partial-id-change")("setresuid", r, e, s_))
+        self._set(os, "setresgid", lambda r, e, s_: r_gid(r, e) if r == e == s_ else rec("partial-id-change")("setresgid", r, e, s_))
+        self._set(os, "seteuid", lambda u: rec("partial-id-change")("seteuid", u))
+        self._set(os, "setegid", lambda g: rec("partial-id-change")("setegid", g))
         for n in ("getuid", "geteuid", "getgid", "getegid"):
             self._set(os, n, (lambda v: (lambda: v))(self.ids))
         self._set(pwd, "getpwnam", rec("getpwnam", ("nobody", "x", self.uid, 7777, "", "/", "")))
@@ -266,6 +275,11 @@ def _predicates(case, trace, raised, server, root):
             F("unexpected-chroot", "chroot called although usechroot is off")
         if server is not None and server.config.get("pygopherd", "root") != root:
             F("root-rewritten", "document root changed to %r without chroot" % server.config.get("pygopherd", "root"))
+    for t in trace:
+        if t[0] == "partial-id-change":
+            F("ids-not-dropped-completely:" + str(t[1]), "%s%r changes only part of the process's ids: the rest stays privileged and can be used to get "
+                                                         "everything back" % (t[1], tuple(t[2:])))
+            break
     if "initgroups" in names:
         F("groups-kept:initgroups", "initgroups() gives the process the account's supplementary groups instead of clearing them")
     if case["setuid"] or case["setgid"]:
